@@ -53,6 +53,10 @@ def sched_oracle(groups: list[Group], executor: str) -> list[tuple[str, str]]:
         op = g.ops[0]
         t = op.split()
         name = t[0]
+        for h0, (st0, nr0) in g.state['jobs'].items():
+            if str(nr0).startswith('API-MISMATCH'):
+                v.append(('C07', f'group {gi}: next_run_datetime of job {h0} does not show the local time of its run time: {nr0}'))
+                g.state['jobs'][h0] = (st0, '-')
         start_now = prev_now if prev_now is not None else g.now
         loop_ran = name == 'sleep' or 'yield' in g.ops[1:] or name == 'yield'
 
